@@ -55,7 +55,11 @@ class Child:
 
     def __init__(self):
         env = dict(os.environ)
-        env['PYTHONHASHSEED'] = env.get('VERIF_CHILD_HASHSEED', '1')
+        # hash order is an ambient input the simulator pins (the library's
+        # VLOOKUP/MATCH depend on it: Number(0) == Blank but their hashes
+        # differ), so the child gets the parent's value unless told otherwise
+        env['PYTHONHASHSEED'] = env.get(
+            'VERIF_CHILD_HASHSEED', env.get('PYTHONHASHSEED', '0'))
         env['PYTHONDONTWRITEBYTECODE'] = '1'
         self.proc = subprocess.Popen(
             [sys.executable, '-B', os.path.abspath(__file__), 'serve'],
